@@ -21,6 +21,12 @@ def c18_check(family, ref_src, q_src, level_mag, ns):
         return ["root-power-table: the library's ROOT_POWER_DIMENSIONS differs from the eight field quantities by %r" % sorted(str(d) for d in set(M.ROOT_POWER_DIMENSIONS) ^ ROOT_POWER)]
     k = 2 if ref.unit.dimension in ROOT_POWER else 1
     base, pfx = fam.base, float(fam.prefix.quantify())
+    # families built by stacking a prefix on an already prefixed logarithm: the intended scale is known independently of the object
+    stacked = {"DeciSemitone": 0.1 / 12, "SemitoneDeci": 0.1 / 12, "CentiDecibel": 0.001, "MilliMilliBel": 1e-6}
+    if family in stacked:
+        if abs(pfx / stacked[family] - 1) > 1e-9:
+            return ["stacked-prefix: %s has prefix value %r, the two prefixes multiply to %r" % (family, pfx, stacked[family])]
+        pfx = stacked[family]
     def close(a, b, tol=1e-9): return abs(a - b) <= tol * max(abs(a), abs(b), 1.0)
     ratio = float(q.in_unit(ref.unit).magnitude) / float(ref.magnitude)
     want = (k / pfx) * math.log(ratio, base)
@@ -52,7 +58,11 @@ def run(tier, seed):
     ns["Semitone"] = ns.get("Semitone") or __import__("measured.music", fromlist=["Semitone"]).Semitone
     ns["CentiNeper"] = ns["Centi"] * measured.Neper
     ns["KiloBel"] = ns["Kilo"] * measured.Bel
-    fams = ["Bel", "Decibel", "Neper", "Octave", "Semitone", "CentiNeper", "KiloBel"]
+    ns["DeciSemitone"] = ns["Deci"] * ns["Semitone"]
+    ns["SemitoneDeci"] = ns["Semitone"] * ns["Deci"]
+    ns["CentiDecibel"] = ns["Centi"] * measured.Decibel
+    ns["MilliMilliBel"] = ns["Milli"] * (ns["Milli"] * measured.Bel)
+    fams = ["Bel", "Decibel", "Neper", "Octave", "Semitone", "CentiNeper", "KiloBel", "DeciSemitone", "SemitoneDeci", "CentiDecibel", "MilliMilliBel"]
     groups = [(["(1 * Watt)", "(1 * (Milli * Watt))", "(1 * Horsepower)", "(2 * Joule / Second)", "(1 * MetricHorsepower)"], ["Watt", "Horsepower", "(Kilo*Watt)"]),
               (["(20 * (Micro * Pascal))", "(1 * (Hecto * Pascal))", "(1 * Pascal)"], ["Pascal", "(Kilo*Pascal)", "(Mega*Pascal)"]),
               (["(1 * Volt)", "(0.775 * Volt)"], ["Volt", "(Milli*Volt)"]),
@@ -71,6 +81,8 @@ def run(tier, seed):
         q = "(%r * %s)" % (rng.choice([1, 2, 100, 0.001, 3.7, 1e6]), qu)
         lm = rng.choice([-200, -30, -3, 0, 0.5, 3, 10, 60, 200, 60.00000003, -29.99999998])
         as_decimal = rng.random() < 0.25
+        if fam in ("DeciSemitone", "SemitoneDeci", "CentiDecibel", "MilliMilliBel") and not isinstance(lm, str):
+            lm = lm * 10
         if fam in ("KiloBel",) and abs(lm) > 0.3:
             lm = lm / 1000.0
         if fam in ("Bel", "Neper", "Octave") and abs(lm) > 60:
